@@ -701,6 +701,13 @@ impl Env {
                 muts.push(("other-last-with-data".to_string(), m2.clone()));
             }
         }
+        // blocks the server does not have on its chain (another branch, or not below the last header) returned as
+        // found, beside the genuinely proved ones: a header no MMR proof covers
+        if let Some(m3) = server.blocks_proof_lying(&sim.chain, &req) {
+            for _ in 0..4 {
+                muts.push(("missing-as-found".to_string(), m3.clone()));
+            }
+        }
         if muts.is_empty() {
             return false;
         }
